@@ -24,14 +24,21 @@ import (
 // (checkParse): no panic, same text => same plan, bounded CPU time. Seeds are the queries of the
 // repository's own tests plus the hostile constants.
 
-func fuzzTarget(f *testing.F, lang string) {
-	for _, s := range seeds()[seedLang(lang)] {
-		f.Add([]byte(s))
-	}
+// fuzzSeeds: the queries of the repository's own tests plus the short hostile constants (the long
+// ones are enumerated by TestC17Hostile; they only slow mutation down).
+func fuzzSeeds(lang string) []string {
+	out := append([]string(nil), seeds()[seedLang(lang)]...)
 	for _, s := range hostileFor(lang) {
-		if len(s) <= 600 { // long constants are enumerated by TestC17Hostile; they only slow mutation down
-			f.Add([]byte(s))
+		if len(s) <= 600 {
+			out = append(out, s)
 		}
+	}
+	return out
+}
+
+func fuzzTarget(f *testing.F, lang string) {
+	for _, s := range fuzzSeeds(lang) {
+		f.Add([]byte(s))
 	}
 	f.Fuzz(func(t *testing.T, b []byte) {
 		if len(b) > maxInput {
@@ -107,11 +114,30 @@ func TestC17NativeFuzz(t *testing.T) {
 		if !pt.Thorough() && os.Getenv("C17_FUZZ_FORCE") == "" {
 			t.Skip("native fuzzing runs in the thorough tier only")
 		}
-		fuzzSecs := 150
+		fuzzSecs := 100
 		if v, err := strconv.Atoi(os.Getenv("C17_FUZZTIME_S")); err == nil && v > 0 {
 			fuzzSecs = v
 		}
 		for _, tg := range fuzzTargets {
+			if only := os.Getenv("C17_FUZZ_TARGETS"); only != "" && !strings.Contains(only, tg.name) {
+				continue
+			}
+			// `go test -fuzz` aborts without a corpus file when a seed fails: check the seeds here first
+			seedFailed := false
+			for _, sd := range fuzzSeeds(tg.lang) {
+				c := newParseCase(tg.lang, "seed", []byte(sd))
+				if cerr := checkParse(c, &pt.Obs{}); cerr != nil {
+					if _, inc := cerr.(*pt.Inconclusive); !inc {
+						pending = append(pending, c)
+						seedFailed = true
+						break
+					}
+				}
+			}
+			if seedFailed {
+				t.Logf("%s: a seed already violates the oracle, target not fuzzed", tg.name)
+				continue
+			}
 			deadline := time.Now().Add(time.Duration(fuzzSecs) * time.Second)
 			// A target stops at its first crasher. Crashers that the rapid-path oracle does not
 			// confirm (e.g. the fuzz engine's own 10 s wall-clock limit on a loaded machine) do
